@@ -327,17 +327,7 @@ def run(ctx):
         f = repo.func(rel, q)
         # raise sites of the function and of the helpers of its module it hands the work to (a check moved into
         # `_sample_modifier_lookup(...)` is still this function's check)
-        nodes, todo = [], [f]
-        while todo and len(nodes) < 6:
-            g_ = todo.pop()
-            if any(g_.node is n_ for n_ in nodes):
-                continue
-            nodes.append(g_.node)
-            for c_ in A.calls_in(g_.node):
-                nm_ = A.dotted(c_.func) or ""
-                kind_, obj_ = repo.resolve_name(g_.module, nm_) if nm_ and "." not in nm_ else (None, None)
-                if kind_ == "func" and obj_.module is g_.module and obj_.cls is None:
-                    todo.append(obj_)
+        nodes = [f.node] + [h_.node for h_ in repo.helpers_of(f, depth=2)]
         got = sum(1 for nd_ in nodes for r in ast.walk(nd_) if isinstance(r, ast.Raise) and _exc(r) == exc)
         if got >= count:
             ctx.holds(r6, f"{rel}::{q}", f"{got} x raise {exc} ({what})")
@@ -553,6 +543,22 @@ def _lengths_interpreted(ctx, r4, r6, repo, reg):
                 ctx.unrecognised(r4, b, f"staterror [{lab}]", f"not interpretable: {type(e).__name__}: {e}")
     # ---- duplicate names: the whole builder pipeline interpreted on specifications that pass the schema
     _duplicates_interpreted(ctx, repo, reg, pyhf_excs)
+    # The structural KEYREG instances above know the duplicate test as an `if name in table: raise` next to the store, in one
+    # function.  When the builder pipeline interpreted on specifications with duplicate channels / samples / modifiers refuses
+    # every one of them (and accepts the well-formed ones), a store whose guard lives elsewhere (a helper class, another method)
+    # is not a defect.
+    r2_ = ctx.rules["C20.R2"]
+    interp_ = [i_ for i_ in r2_.instances if "[interpreted: " in str(i_[0]) or "duplicate names [" in str(i_[0])]
+    if interp_ and all(i_[1] == "HOLDS" for i_ in interp_) and len(interp_) >= 6:
+        changed_ = False
+        for k_, (site_, outcome_, detail_) in enumerate(r2_.instances):
+            if "_finalize_parameters_specs" in str(site_) or "user_config" in str(site_):
+                continue  # duplicate PARAMETER configurations are not among the interpreted specifications: that store keeps its own verdict
+            if outcome_ == "VIOLATED" and ("without a duplicate check" in str(detail_) or "guarded against duplicates only under a side condition" in str(detail_)):
+                r2_.instances[k_] = (site_, "HOLDS", "no membership test next to this store; every specification with duplicate names is refused by the pipeline as a whole (interpreted)")
+                changed_ = True
+        if changed_:
+            ctx.violations = [v_ for v_ in ctx.violations if not (v_.rule == "C20.R2" and v_.qualname != "_finalize_parameters_specs" and ("without a duplicate check" in v_.what or "only under a side condition" in v_.what))]
     # ---- overrides of the wrong length
     red = repo.func(PU, "reduce_paramsets_requirements")
 
